@@ -25,10 +25,57 @@ def run(ctx, crate):
     rule_width_always_applied(ctx, crate)
     rule_width_parsed_exact(ctx, crate)
     rule_trunc_keeps_width(ctx, crate)
+    rule_padded_content_is_text(ctx, crate)
     # "wide_msg behaves as a truncating field as wide as the rest of the line": the wide element goes where its marker is and
     # nowhere else (text containing the marker character would get a second copy spliced in: the line overflows)
     from .c11 import rule_marker_out_of_band
     rule_marker_out_of_band(ctx, crate)
+
+
+def rule_padded_content_is_text(ctx, crate, rule="R-PADDED-CONTENT-IS-TEXT"):
+    """"when it overflows exactly W columns are kept - from the start, the middle or the end according to the alignment": the one
+    place that knows the alignment is the padding/truncation step, so the text handed to it is the placeholder's whole text. A text
+    that was shortened beforehand (`console::truncate_str`, a slice, `trim..`) never overflows there: the step's alignment-dependent
+    cut does not run, and a right- or centre-aligned truncating field keeps the *start* of its text (seed C12m)."""
+    cfg = crate.config
+    n = 0
+    OKP = (r"std::ops::Deref::deref", r"<std::string::String as std::ops::Deref>::deref", r"std::string::String::as_str", r"std::convert::AsRef::as_ref",
+           r"std::borrow::Borrow::borrow", r"state::TabExpandedString::expanded", r"<std::borrow::Cow<'_, B> as std::ops::Deref>::deref")
+    for (b, i, j, st) in K.constructions(crate, "style::PaddedStringDisplay"):
+        rv = st["rv"]
+        if "str" not in rv.get("fields", []):
+            continue
+        n += 1
+        # the value chain from the operand back to the buffer that holds the rendered text (its writers are not of interest here)
+        other, seen_, work_ = [], set(), [operand_local(rv["ops"][rv["fields"].index("str")])]
+        while work_:
+            l_ = work_.pop()
+            if l_ is None or l_ in seen_ or len(seen_) > 40:
+                continue
+            seen_.add(l_)
+            if b.locals[l_]["ty"] in ("std::string::String",) or l_ <= b.arg_count:
+                continue
+            for d in b.defs().get(l_, ()):
+                if d.get("via_ref") is not None or d.get("lhs", {}).get("p"):
+                    continue
+                if d["kind"] == "assign":
+                    r_ = d["rv"]
+                    if r_["k"] in ("use", "cast"):
+                        work_.append(operand_local(r_.get("op")))
+                    elif r_["k"] in ("ref", "copyderef"):
+                        work_.append(r_["place"]["l"])
+                elif d["kind"] == "call":
+                    k = d["call"]
+                    if not k.matches(*OKP):
+                        other.append(K.meth(k.path))
+                    if k.args:
+                        work_.append(operand_local(k.args[0]))
+        other = sorted(set(other))
+        ctx.check(not other, rule, "content:%s" % K.meth(K.owner_fn(crate, b)), b.name, "%s:%d" % (b.file, st.get("line", 0)),
+                  "the padding/truncation step receives the placeholder's text as it was rendered",
+                  "the text handed to the padding/truncation step was already transformed by %s: the step no longer sees the overflow, its alignment-dependent cut does "
+                  "not run (a right/centre-aligned `{key:W!}` keeps the start of its text)" % other, cfg)
+    ctx.floor(rule, n, 2, cfg, "constructions of PaddedStringDisplay")
 
 
 def rule_units(ctx, crate, rule="R-UNITS"):
